@@ -299,7 +299,7 @@ func RunXport(t *testing.T, p *plan.Plan, keepLog int) *Result {
 			}
 			if xp.Exhaust > 0 {
 				wg.Add(1)
-				go func() { defer wg.Done(); runExhaust(h, ups[0]) }()
+				go func() { defer wg.Done(); runExhaust(h, ups[0], w) }()
 			}
 			go func() { wg.Wait(); s.Logf("calls_done", ""); s.Stop() }()
 			s.Run(us(xp.HorizonUs))
@@ -319,6 +319,35 @@ func RunXport(t *testing.T, p *plan.Plan, keepLog int) *Result {
 				default:
 					s.Fail("C18", "close-hangs", "Close of upstream %s (%s) did not return within 2s of fake time", xp.Upstreams[i].Tag, xp.Upstreams[i].Kind)
 				}
+			}
+			// every upstream is closed now: what the proxy still has open 3 s
+			// later and still 2 s after that was left behind by a Close (the long
+			// grace below hides what an idle timer tidies up)
+			s.Settle(3 * time.Second)
+			still := map[string]bool{}
+			for _, d := range w.OpenEndpoints(vnet.OwnerProxy) {
+				still[d] = true
+			}
+			s.Settle(2 * time.Second)
+			{
+				var left []string
+				for _, d := range w.OpenEndpoints(vnet.OwnerProxy) {
+					if still[d] {
+						left = append(left, d)
+					}
+				}
+				sort.Strings(left)
+				hmu.Lock()
+				for _, d := range left {
+					dup := false
+					for _, e := range h.LeftAfterClose {
+						dup = dup || e == d
+					}
+					if !dup {
+						h.LeftAfterClose = append(h.LeftAfterClose, d)
+					}
+				}
+				hmu.Unlock()
 			}
 			s.Settle(150 * time.Second)
 			h.Open = w.OpenEndpoints(vnet.OwnerProxy)
@@ -358,10 +387,13 @@ func RunXport(t *testing.T, p *plan.Plan, keepLog int) *Result {
 }
 
 // runExhaust drives more than 65536 sequential exchanges through one upstream.
-func runExhaust(h *XHistory, u upstream.Upstream) {
+func runExhaust(h *XHistory, u upstream.Upstream, w *vnet.World) {
 	s := h.S
 	n := h.XP.Exhaust
 	fails := 0
+	var slowWG sync.WaitGroup
+	var slowMu sync.Mutex
+	var slowRet []time.Duration
 	// the last 300 exchanges before the id space runs out, and everything
 	// after, are issued in concurrent waves, so that several callers meet the
 	// connection at its end of life together
@@ -373,8 +405,27 @@ func runExhaust(h *XHistory, u upstream.Upstream) {
 		const wave = 24
 		for i := seqN; i < n+300; i += wave {
 			for k := 0; k < wave; k++ {
-				wg.Add(1)
 				idx := i + k
+				if h.XP.ExhaustClose && idx >= 65536-6 && idx < 65536+2 {
+					// answered seconds late: these hold the connection's last ids
+					// (or the first of the next one) while the upstream is closed
+					slowWG.Add(1)
+					go func() {
+						defer slowWG.Done()
+						c := &plan.XCall{Idx: 1_000_000 + idx, Token: fmt.Sprintf("txslow%d", idx-(65536-6)), ID: uint16(idx * 7), Type: 1}
+						ctx, cancel := context.WithTimeout(context.Background(), 20*time.Second)
+						m, _ := u.ExchangeContext(ctx, xQuery(c))
+						cancel()
+						if m != nil {
+							dnsmsg.ReleaseMsg(m)
+						}
+						slowMu.Lock()
+						slowRet = append(slowRet, s.Now())
+						slowMu.Unlock()
+					}()
+					continue
+				}
+				wg.Add(1)
 				go func() {
 					defer wg.Done()
 					// per wave: callers start together (interleaved only at the
@@ -408,6 +459,29 @@ func runExhaust(h *XHistory, u upstream.Upstream) {
 			wg.Wait()
 		}
 		s.Probe("c05_exhaust_concurrent_tail")
+		if h.XP.ExhaustClose {
+			// the waves are through (a round trip each); the late answers are
+			// seconds away: close the upstream now
+			s.Logf("close_call", "up=0 (exhausted connection with exchanges in flight)")
+			u.Close()
+			tc := s.Now()
+			s.Logf("close_ret", "up=0")
+			slowWG.Wait()
+			for _, t := range slowRet {
+				if t > tc+time.Second+stallSlack(h.P) {
+					s.Fail("C18", "inflight-outlives-close", "an exchange in flight on a connection that had used up its ids returned %v after Close of the upstream had returned (it has to fail promptly)", t-tc)
+					break
+				}
+			}
+			s.Probe("c18_exhaust_close_checked")
+			if now := s.Now(); now < tc+2*time.Second {
+				time.Sleep(tc + 2*time.Second - now)
+			}
+			if left := w.OpenEndpoints(vnet.OwnerProxy); len(left) > 0 && s.Now() < tc+3*time.Second {
+				sort.Strings(left)
+				s.Fail("C18", "connection-left-open-by-close", "2 s after Close of the (only) upstream returned the proxy still had open: %s", strings.Join(left, "; "))
+			}
+		}
 	}()
 	n = seqN
 	for i := 0; i < n; i++ {
@@ -698,6 +772,14 @@ func checkC14(h *XHistory) {
 			slowForIdle = true
 		}
 		healthy := allReply && !faulty && !closedAny && !slowForIdle && !eventIn(h, c.C.Up, c.Start, c.End) && c.Limit >= delay+2*time.Second+sigma && c.C.CancelUs == 0
+		if (u.Spec.Kind == "tcp+pipeline" || u.Spec.Kind == "tls+pipeline") && c.Limit < 2*delay+2*time.Second+sigma {
+			// a pooled pipelined connection's idle read deadline runs from its
+			// last read and is not extended by a write: the first attempt may be
+			// cut off after anything up to the reply's delay (had more of the
+			// idle time been left, it would have succeeded) before the retry on a
+			// new connection starts from zero
+			healthy = false
+		}
 		if h.XP.Net.UpDup > 0 && u.Spec.Kind == "udp" {
 			healthy = healthy && true
 		}
